@@ -7,3 +7,4 @@ INVARIANT FixedPinned
 INVARIANT FixedCopies
 INVARIANT FixedSymmetric
 INVARIANT FixedTransitive
+INVARIANT RealIsFixed
